@@ -440,7 +440,7 @@ impl<'a> Rw<'a> {
             }
             "panic" | "unreachable" | "todo" | "unimplemented" => {
                 self.count("R2");
-                Some(if stmt_pos { "rt_panic::<()>()".to_string() } else { "rt_panic()".to_string() })
+                Some(if stmt_pos { "rt_never()".to_string() } else { "rt_panic()".to_string() })
             }
             "debug" | "trace" | "info" | "warn" | "error" if stmt_pos => {
                 self.count("R9");
